@@ -1,4 +1,5 @@
 mod common;
+mod geom;
 mod props;
 mod xmlref;
 
